@@ -92,6 +92,16 @@ CLAIMED = {
          "L7 no polynomial-backtracking regex shape. Not covered: None current command typestate, resource errors.",
     technique="regex width/backtracking analysis + CFG cycle/dominance queries + call-graph raise closure + guarded-subscript dataflow",
     ref="4/C02"),
+ "C07": dict(
+    text="The gating argument decided structurally: E1 all 39 construct->extension bindings of a frozen reference (12 commands, 6 tags, 3 match-type "
+         "values x 7 tests) are present in the statically evaluated command tables; E2/E3/E4 in the lookup function, the argument interpreter and the "
+         "value-validity helper, acceptance (return of the instance / recording of the optional slot / True for an extension-bound value) is reached "
+         "only on paths that crossed 'check disabled', 'no extension' or 'extension in registry' (CFG edge facts), and ExtensionNotLoaded names the "
+         "extension found missing; E5 no call from parser.py disables a check; E6 the registry is written only by the parser reset (emptied) and "
+         "RequireCommand.complete_cb, invoked only on ';'; E7 message text. Holds for every script because it holds on every path; 'first missing in "
+         "script order' is not separately proved.",
+    technique="constant evaluation of the command tables vs a reference + CFG dominance with edge facts on the three gates + ownership of the registry",
+    ref="4/C07"),
 }
 NA = {}
 
